@@ -24,6 +24,44 @@ SINKS = {"printf": 0, "fprintf": 1, "puts": None, "fputs": None, "putchar": None
          "fwrite_unlocked": None, "_IO_putc": None}
 SANITISERS = {"safe_printf", "safe_fprintf"}
 ALLOWED = set(range(0x20, 0x7f)) | {0x0a, 0x0d, 0x09}
+import re as _re
+_CONVS = _re.compile(r"%[-+ #0]*(?:\*|\d+)?(?:\.(?:\*|\d+))?(?:hh|h|ll|l|j|z|t|L)?([diouxXeEfFgGaAcspn%])")
+
+
+def char_positions(fmt, first_arg):
+    """operand indices of the arguments a printf format turns into raw bytes: %c (the byte itself) and %s (the bytes of a string)"""
+    out, k = [], first_arg
+    for m in _CONVS.finditer(fmt):
+        whole, conv = m.group(0), m.group(1)
+        if conv == "%":
+            continue
+        k += whole.count("*")
+        if conv in "cs":
+            out.append(k)
+        k += 1
+    return out
+
+
+class ByteTaint(Taint):
+    """second instance of E5 for the header's NUMBERS: a number is harmless printed as a number, and is an archive-chosen byte when it is
+    printed with %c, handed to putchar, or stored into a character buffer that is later printed.  Formatting calls therefore pass taint on
+    only from the arguments their (literal) format turns into raw bytes."""
+
+    def _call(self, fn, i):
+        t = i.callee
+        if t in ("sprintf", "snprintf") :
+            fi = 1 if t == "sprintf" else 2
+            fmt = self.mod.const_string(i.ops[fi]) if len(i.ops) > fi else None
+            if fmt is not None:
+                pos = char_positions(fmt.split(b"\0")[0].decode("latin-1"), fi + 1)
+                if any(k < len(i.ops) and self.is_tainted(fn, i.ops[k]) for k in pos):
+                    fo, g = self._addr_field(fn, self._strip_zero_gep(fn, i.ops[0]))
+                    if fo:
+                        return self._mark(fo, ("copied-into", fn.name, i.ops[0], i.where()), "f")
+                    return self._taint_object(fn, i.ops[0], ("copied", fn.name, i.where()))
+                return False
+        return Taint._call(self, fn, i)
+
 
 
 def run(tier, seed):
@@ -197,4 +235,57 @@ def run(tier, seed):
                     continue
                 bad = [b for b in fmt if b not in ALLOWED]
                 rep.check(rid, not bad, "%s format %r" % (cn, fmt[:40]), c.where(), "bytes %s" % bad if bad else None, function=fn.cname, obj="format-bytes")
+        # ---- R4: numbers printed as characters -------------------------------------------------------------------------------------
+        rid = rep.rule("R4", "no number taken from the header is printed as a raw byte outside the sanitiser: not through %c or putchar, and not through a "
+                             "character buffer it was formatted or stored into (numeric conversions are printable whatever the value)", 40)
+        hdr_ty = [t for t in mod.types if mod.struct_cname(t) == HDR]
+        scal = []
+        for t in hdr_ty:
+            for k, fdesc in enumerate(mod.types[t].get("fields", [])):
+                fty = fdesc.get("ty", "")
+                nm = mod.field_name(t, k)
+                if nm and not fty.endswith("*") and not fty.startswith("[") and not fty.startswith("%"):
+                    scal.append((HDR, nm))
+        scal = sorted(set(scal))
+        rep.check(rid, len(scal) >= 8, "numeric header fields found (%d)" % len(scal), "lib/public/lha_file_header.h", None, function="LHAFileHeader", obj="fields")
+        B = ByteTaint(mod, cg, scal, [], SANITISERS)
+        nb = 0
+        for fn in mod.defined():
+            if fn.cname in SANITISERS:
+                continue
+            F = None
+            for c in fn.insts():
+                if c.op != "call":
+                    continue
+                cn = mod.callee_cname(c)
+                if cn not in SINKS:
+                    continue
+                fi = SINKS[cn]
+                if fi is not None:
+                    fmt = mod.const_string(Matcher(fn).strip(c.ops[fi], ("bitcast",))) if len(c.ops) > fi else None
+                    if fmt is None:
+                        continue            # R3 reports non-literal formats
+                    pos = char_positions(fmt.split(b"\0")[0].decode("latin-1"), fi + 1)
+                elif cn in ("putchar", "fputc", "putc", "putchar_unlocked", "_IO_putc", "puts", "fputs", "fputs_unlocked", "fwrite", "fwrite_unlocked", "write"):
+                    pos = [1] if cn == "write" else [0]
+                else:
+                    continue
+                nb += 1
+                bad = []
+                for k in pos:
+                    if k < len(c.ops) and B.is_tainted(fn, c.ops[k]):
+                        # a byte shown to be printable by the branch facts at the call is as good as sanitised
+                        F = F or ctx.facts(fn)
+                        fs = F.at_inst(c)
+                        Mx = Matcher(fn)
+                        lo = any(f[0] in ("sge", "uge", "sgt", "ugt") and Mx.strip(f[1]) == Mx.strip(c.ops[k]) and is_const(f[2]) and
+                                 (const_val(f[2]) or 0) + (1 if f[0] in ("sgt", "ugt") else 0) >= 0x20 for f in fs)
+                        hi = any(f[0] in ("sle", "ule", "slt", "ult") and Mx.strip(f[1]) == Mx.strip(c.ops[k]) and is_const(f[2]) and
+                                 (const_val(f[2]) or 0) - (1 if f[0] in ("slt", "ult") else 0) <= 0x7e for f in fs)
+                        if not (lo and hi):
+                            bad.append(k)
+                rep.check(rid, not bad, "%s in %s prints no header number as a raw byte" % (cn, c.src_fn()), c.where(),
+                          "argument %s: %s" % (describe(fn, c.ops[bad[0]]), B.explain(fn, c.ops[bad[0]])) if bad else None,
+                          function=fn.cname, obj="%s:byte" % cn)
+        rep.extra["byte_sink_sites"] = nb
     return rep.finish(seed)
